@@ -133,6 +133,29 @@ def Rec.specIdent (lower : String â†’ String) (r : Rec) : String Ã— Nat Ã— Nat Ã
 def Question.specIdent (lower : String â†’ String) (q : Question) : String Ã— Nat Ã— Nat :=
   (lower q.name, q.type, q.class_)
 
+/-! ### construction: what `DNSEntry.__init__` makes of the class argument
+
+A record object is built from a *raw* 16-bit class whose top bit is the cache-flush (QU) bit;
+`DNSEntry._set_class` (generated leaves `class_of` / `unique_of`) splits it.  `normCtor` turns a record
+whose `class_` field holds the raw constructor argument into the object Python builds. -/
+def Rec.normCtor (r : Rec) : Rec :=
+  { r with class_ := Gen.Dns.class_of r.class_, unique := Gen.Dns.unique_of r.class_ }
+
+def Question.normCtor (q : Question) : Question :=
+  { q with class_ := Gen.Dns.class_of q.class_, unique := Gen.Dns.unique_of q.class_ }
+
+/-! ### `DNSRRSet`: known-answer suppression looks records up by identity -/
+
+/-- `{record: record for record in records}.get(r)`: the value kept for a key is the *last* equal record -/
+def rrsetLookup (lower : String â†’ String) (rs : List Rec) (r : Rec) : Option Rec :=
+  rs.reverse.find? (fun o => o.beq lower r)
+
+/-- `DNSRRSet.suppresses` -/
+def rrsetSuppresses (lower : String â†’ String) (rs : List Rec) (r : Rec) : Bool :=
+  match rrsetLookup lower rs r with
+  | none => false
+  | some o => Gen.Dns.rrset_suppresses_ttl r.ttl o.ttl
+
 /-! ### wire/line serialisation of records (driver protocol) -/
 
 def Rec.parse : Tok Rec := do
